@@ -14,7 +14,7 @@ for size,f,d in cands[:n]:
     print('#####',f,d['signature'],'count',d.get('count_in_run'))
     print(d['detail'][:1500])
     r=d['replay']
-    occ=r.get('occurrence') or r.get('declaration')
+    occ=r.get('occurrence') or r.get('declaration') or r.get('binder')
     print('occ',occ)
     for p,t in r.get('files',[]):
         if p.endswith('.toml'): continue
